@@ -526,7 +526,15 @@ static std::string enumerate(const Scenario& sc, CaseInfo& ci)
       ci.sub_evals++;
       std::string site = site_of(pr.pcs);
       // a distinct non-trivial unit: (scenario, allocation call site)
-      g_stats.nontrivial.insert(hstr(sc.name + "|" + site));
+      if (g_stats.nontrivial.insert(hstr(sc.name + "|" + site)).second)
+      {
+        uint64_t nn = g_stats.nontrivial.size();
+        if (g_stats.samples.size() < 3 || ((nn & (nn - 1)) == 0 && g_stats.samples.size() < 8))
+          g_stats.samples.push_back(strf("scenario `%s`: allocation #%ld of %ld%s fails, requested by %s -> %s", sc.name.c_str(), k, n,
+                                         from ? " (and every later one)" : "", site.c_str(),
+                                         pr.kind == 'o' ? "handled: error returned or result unchanged, no crash, no leak, canary compile+scan fine"
+                                         : pr.kind == 'c' ? "crash" : pr.kind == 'l' ? "leak" : pr.kind == 'u' ? "unusable afterwards" : "wrong result"));
+      }
       if (pr.kind == 'o')
         continue;
       bad++;
